@@ -297,6 +297,7 @@ static void classify_leak(char *out, size_t cap)
             char f[96], file[256]; f[0] = file[0] = 0;
             sscanf(q + 4, "%95s %255s", f, file);
             q += 4;
+            if (!((f[0] >= 'a' && f[0] <= 'z') || (f[0] >= 'A' && f[0] <= 'Z') || f[0] == '_')) continue;   /* "in 129 object(s)" */
             if (strstr(f, "interceptor") || strstr(file, "libsanitizer") || strstr(file, "asan_")) continue;
             if (!strncmp(f, "psMalloc", 8) || !strncmp(f, "psCalloc", 8) || !strncmp(f, "psRealloc", 9) || !strncmp(f, "psBufInit", 9) ||
                 !strncmp(f, "psDynBuf", 8) || !strncmp(f, "psBufFromData", 13)) continue;
